@@ -554,4 +554,12 @@ def shared_instance_escape(ctx, py, rule="PY-SHARED-ESCAPE", mod="metadata", cls
                            "self.%s itself" % v.attr if not shallow else "a shallow copy (%s) of self.%s" % (shallow, v.attr),
                            "it" if not shallow else "a nested entry (properties, required …)"))
     ctx.ob(rule, "instances", n >= 1, m.rel, "%d accessor returns of the schema dict analysed" % n)
+    # the codec instance hangs off the shared schema: a decoder that fills in defaults must not hand out the default objects
+    for qn, fn in m.funcs.items():
+        if qn.endswith(".decode") and "self.defaults" in ast.unparse(fn):
+            src = ast.unparse(fn)
+            ok = "deepcopy" in src
+            ctx.ob(rule, "%s|defaults" % qn, ok, m.loc(fn), "defaults that are filled in are deep-copied" if ok else
+                   "%s fills self.defaults into the decoded object without copying them: a caller that edits a defaulted list / dict "
+                   "edits the default of every later decode" % qn)
     return n
